@@ -395,6 +395,47 @@ def run_catalog_case(case):
     return ob, g
 
 
+
+def check_catalog_matrices(chk, pool):
+    """the model's explicit matrices of the exactly modelled catalog gates (the objects of `postprocessed_*_exact`,
+    `heralded_cz_exact`, `heralded_cnot_exact`), evaluated by the driver at the rationalised beam-splitter entries of
+    the code, against `build_circuit().compute_unitary()`; and the decomposition the heralded-CNOT theorem uses
+    (BS.H on the data pair, the heralded CZ circuit, BS.H on the data pair) on the real matrices"""
+    from perceval import catalog
+    from perceval.components import BS
+    from perceval.components.core_catalog.heralded_cz import HeraldedCzItem
+    th1, th2 = HeraldedCzItem.theta1, HeraldedCzItem.theta2
+    par = {"r": math.cos(th1 / 2), "h": math.cos(math.pi / 4), "c2": math.cos(th2 / 2), "s2": math.sin(th2 / 2)}
+    names = ["heralded cz", "heralded cnot", "postprocessed cnot", "postprocessed cz"]
+    reps = pool.ask_many([dict({"op": "catmat", "name": nm}, **{k: core.rat(float(v)) for k, v in par.items()}) for nm in names])
+    for nm, rep in zip(names, reps):
+        chk.branch("catmat")
+        chk.case(("catmat", nm), nontrivial=True, sample={"gate": nm, "params": par})
+        real = np.array(catalog[nm].build_circuit().compute_unitary(), dtype=complex)
+        if "U" not in rep:
+            chk.fail("broken", "catmat-driver", f"catmat {nm}: {rep}", {"kind": "catmat", "name": nm})
+            continue
+        model = np.array(core.unmat(rep["U"]), dtype=complex)
+        dev = float(np.max(abs(model - real)))
+        chk.count("catmat_dev", f"{dev:.1e}")
+        if dev > 1e-9:
+            # direct oracle: is the real gate still the gate it is named after?
+            ob, g = run_catalog_case({"kind": "catalog", "name": nm, "kw": {}})
+            fails = np_fails(ob, g, TOL)
+            chk.fail("violation" if fails else "broken", "catalog-matrix-" + nm.replace(" ", "-"),
+                     f"catalog[{nm!r}].build_circuit().compute_unitary() differs from the model's explicit matrix by "
+                     f"{dev:.3g}" + (" and its logical table is not c.G" if fails else ""),
+                     {"kind": "catalog", "name": nm, "kw": {}})
+    hcz = np.array(catalog["heralded cz"].build_circuit().compute_unitary(), dtype=complex)
+    hcn = np.array(catalog["heralded cnot"].build_circuit().compute_unitary(), dtype=complex)
+    hd = placed(6, [2, 3], np.array(BS.H().compute_unitary(), dtype=complex))
+    dev = float(np.max(abs(hd @ hcz @ hd - hcn)))
+    if dev > 1e-12:
+        chk.fail("broken", "heralded-cnot-structure", f"heralded cnot is not BS.H . heralded cz . BS.H on the data pair "
+                 f"(deviation {dev:.3g}): the exact theorem no longer describes this circuit",
+                 {"kind": "catalog", "name": "heralded cnot", "kw": {}})
+
+
 # ------------------------------------------------------------------------------------------------
 # converters
 # ------------------------------------------------------------------------------------------------
@@ -867,6 +908,78 @@ def is_cyclic_real(edges):
     return bool(_is_cyclic(adj, len(nodes)))
 
 
+
+def cut_ok_py(two_q, leaky):
+    """direct oracle of the cut condition on a labelled circuit (independent of the Lean check): two_q = qubit pairs of
+    the two-qubit gates in circuit order, leaky[i] = gate i is a post-processed CNOT.  For every leaky gate, its two
+    qubits must NOT be connected by the two-qubit gates that come later.  -> index of the first offending gate or None"""
+    for i, (e, lk) in enumerate(zip(two_q, leaky)):
+        if not lk:
+            continue
+        par = {}
+
+        def find(x):
+            par.setdefault(x, x)
+            while par[x] != x:
+                par[x] = par[par[x]]
+                x = par[x]
+            return x
+        for a, b in two_q[i + 1:]:
+            par[find(a)] = find(b)
+        if find(e[0]) == find(e[1]):
+            return i
+    return None
+
+
+def heralded_after_pp(two_q, leaky):
+    """is there a non-leaky two-qubit gate after a post-processed CNOT that shares a qubit with it?"""
+    for i, lk in enumerate(leaky):
+        if lk and any(not leaky[j] and set(two_q[j]) & set(two_q[i]) for j in range(i + 1, len(two_q))):
+            return True
+    return False
+
+
+def placed(m, modes, u):
+    """the matrix `u` acting on the listed modes of an m-mode circuit, identity elsewhere"""
+    out = np.eye(m, dtype=complex)
+    for i, mi in enumerate(modes):
+        out[mi, mi] = 0
+    for i, mi in enumerate(modes):
+        for j, mj in enumerate(modes):
+            out[mi, mj] = u[i, j]
+    return out
+
+
+def py_gate_modes(n, two_idx, a, b):
+    return [2 * a, 2 * a + 1, 2 * b, 2 * b + 1, 2 * n + 2 * two_idx, 2 * n + 2 * two_idx + 1]
+
+
+def placement_unitary(p, n, ops, modes):
+    """the unitary of the converted circuit rebuilt from the REAL components' own matrices placed on `modes` (one list
+    per source gate; SWAP: exchange of the two pairs).  -> matrix or None when the component list cannot be aligned"""
+    import perceval.components.unitary_components as comp
+    m = p.circuit_size
+    real = [(r, c) for r, c in p.components if not isinstance(c, comp.PERM)]
+    gates = [o for o in ops if o["g"] != "swap"]
+    if len(real) != len(gates) or len(modes) != len(ops):
+        return None
+    u = np.eye(m, dtype=complex)
+    it = iter(real)
+    for o, md in zip(ops, modes):
+        if o["g"] == "swap":
+            sw = np.zeros((4, 4))
+            for i, j in ((0, 2), (1, 3), (2, 0), (3, 1)):
+                sw[i, j] = 1
+            u = placed(m, md, sw) @ u
+            continue
+        r, c = next(it)
+        cu = np.array(c.compute_unitary(), dtype=complex)
+        if cu.shape[0] != len(md):
+            return None
+        u = placed(m, md, cu) @ u
+    return u
+
+
 def _real_flags_shard(args):
     """worker: (nq, k, first) -> (flag strings of all sequences starting with `first`, first non-forest witness)"""
     nq, k, first = args
@@ -874,6 +987,7 @@ def _real_flags_shard(args):
     pairs = [(a, b) for a in range(nq) for b in range(nq) if a != b]
     out = []
     bad = None
+    badcut = None
     hist = {}
     for combo in itertools.product(pairs, repeat=k - 1):
         seq = [first] + list(combo)
@@ -887,7 +1001,37 @@ def _real_flags_shard(args):
         hist[npp] = hist.get(npp, 0) + 1
         if bad is None and not union_find_forest([e for e, x in zip(seq, lab) if x == PP]):
             bad = seq
-    return out, bad, hist
+        if badcut is None and cut_ok_py(seq, [x == PP for x in lab]) is not None:
+            badcut = seq
+        if heralded_after_pp(seq, [x == PP for x in lab]):
+            hist["hap"] = hist.get("hap", 0) + 1
+    return out, bad, hist, badcut
+
+
+def check_cut_real(chk, gates, labels, ups, crep, fixed, replay, table_fails=None):
+    """the cut condition on the labels the REAL code produced: python oracle (direct, on the real labelling) and the
+    model's `cutCheck` of the same labels must agree; a violated condition is a violation of the property's
+    precondition "what a post-processed CNOT leaks never returns" (for a converted circuit `table_fails` says whether
+    the logical table itself is wrong)"""
+    two = [(tuple(g[1]), lab) for g, lab in zip(gates, labels) if len(g[1]) == 2]
+    two_q = [e for e, _ in two]
+    leaky = [ups and lab == PP for _, lab in two]
+    off = cut_ok_py(two_q, leaky)
+    if any(leaky):
+        chk.branch("cut:pp")
+    if heralded_after_pp(two_q, leaky):
+        chk.branch("cut:heralded-after-pp")
+    if off is not None:
+        table_fails = table_fails() if callable(table_fails) else table_fails
+    if off is not None and (fixed or table_fails):
+        kind = "violation" if (table_fails is None or table_fails) else "broken"
+        chk.fail(kind, "label-pp-leak-returns",
+                 f"{gates} labelled {labels}: the qubits {two_q[off]} of a post-processed CNOT are connected again by the "
+                 f"two-qubit gates that follow it" + ("" if table_fails is None else f" (logical table wrong: {table_fails})"),
+                 replay)
+    if "ok" not in crep or crep["ok"] != (off is None):
+        chk.fail("broken", "cutcheck-model-mismatch",
+                 f"{gates} labelled {labels}: python cut oracle {off is None}, model cutCheck {crep}", replay)
 
 
 def check_labelling(chk, pool, fixed):
@@ -906,11 +1050,32 @@ def check_labelling(chk, pool, fixed):
         real_async = mpool.map_async(_real_flags_shard, shards)
         reps = pool.ask_many([{"op": "labelenum", "fixed": fixed, "nq": nq, "k": k, "first": list(f)}
                               for nq, k, f in shards], costs=[float((nq * (nq - 1)) ** k) for nq, k, _ in shards])
+        # the model's cut check (`cutCheck`, sound for `CutOk` by `cut_check_sound`) on the model's own labelling of
+        # every enumerated sequence: the statement "the labelling always passes the check" is NOT proved, this is
+        # its exhaustive validation up to the stated sizes
+        creps = pool.ask_many([{"op": "cutenum", "fixed": fixed, "nq": nq, "k": k, "first": list(f)}
+                               for nq, k, f in shards], costs=[float((nq * (nq - 1)) ** k) for nq, k, _ in shards])
         reals = real_async.get()
     n_exh = 0
     seqs = []
-    for (nq, k, first), rep, (real, badseq, hist) in zip(shards, reps, reals):
+    for (nq, k, first), rep, crep, (real, badseq, hist, badcut) in zip(shards, reps, creps, reals):
         model = rep.get("flags", "").split(",") if "flags" in rep else None
+        chk.branch("cut:exhaustive")
+        if hist.pop("hap", 0):
+            chk.branch("cut:heralded-after-pp")
+        if badcut is not None:
+            chk.fail("violation", "label-pp-leak-returns",
+                     f"CNOT sequence {badcut}: a post-processed CNOT's two qubits are connected again by the two-qubit "
+                     f"gates that follow it (what it leaks can return to the logical space)",
+                     {"kind": "label", "gates": [["cx", list(e)] for e in badcut]})
+        if fixed and set(crep.get("ok", "0")) != {"1"} and badcut is None:
+            pairs = [(a, b) for a in range(nq) for b in range(nq) if a != b]
+            i = crep.get("ok", "0").find("0")
+            combo = next(itertools.islice(itertools.product(pairs, repeat=k - 1), max(i, 0), None), ())
+            sq = [["cx", list(e)] for e in [first] + list(combo)]
+            chk.fail("broken", "cutcheck-model-rejects-model-labelling",
+                     f"model: cutCheck rejects the model's labelling of {sq} ({crep.get('err', '')})",
+                     {"kind": "label", "gates": sq})
         n_exh += len(real)
         chk.evaluations += len(real)
         chk.sigs.add(("labelenum", nq, k, first))
@@ -944,15 +1109,18 @@ def check_labelling(chk, pool, fixed):
         seqs.append(s)
     reqs = [{"op": "label", "fixed": fixed, "gates": s} for s in seqs]
     reps = pool.ask_many(reqs)
+    reals_mixed = [labelling_real(s) for s in seqs]
+    creps = pool.ask_many([{"op": "cutcheck", "fixed": fixed, "ups": True, "gates": s,
+                            "labels": rl if isinstance(rl, list) else None} for s, rl in zip(seqs, reals_mixed)])
     bad = None
-    for s, r in zip(seqs, reps):
-        real = labelling_real(s)
+    for s, r, real, crep in zip(seqs, reps, reals_mixed, creps):
         model = r.get("labels", "rejected:" + r.get("err", "?"))
         ncx = sum(1 for g in s if g[0].upper() in ("CX", "CNOT"))
         others = sum(1 for g in s if len(g[1]) == 2 and g[0].upper() not in ("CX", "CNOT"))
         chk.count("labelling_cnots", ncx)
         chk.case(("label", json.dumps(s)), nontrivial=ncx >= 2, sample=None)
         if isinstance(real, list):
+            check_cut_real(chk, s, real, True, crep, fixed, {"kind": "label", "gates": s})
             npp = sum(1 for x in real if x == PP)
             chk.count("labelling_pp", npp)
             if 0 < npp < ncx:
@@ -1289,7 +1457,8 @@ def run(chk: core.Check):
                              "conv:converter-reused", "conv:reused-generic-twin", "conv:reused-redeclared",
                              "conv:reused-other-size", "conv:pp-qubits-swapped-away", "cqprobe", "cqprobe:array-before-used-var",
                              "cqprobe:converter-reused", "label-mixed",
-                             "label-with-other-2q", "swap-non-adjacent", "swap-with-postselection", "cyclic:True", "cyclic:False", "malformed"]
+                             "label-with-other-2q", "catmat", "cut:exhaustive", "cut:pp", "cut:heralded-after-pp", "place:checked",
+                             "place:two-qubit", "place:non-adjacent", "place:control-below-data", "swap-non-adjacent", "swap-with-postselection", "cyclic:True", "cyclic:False", "malformed"]
     import perceval as pcvl
     pcvl.random_seed(chk.seed)
     pool = Pool(chk, chk.pick(8, 12))
@@ -1337,6 +1506,7 @@ def run(chk: core.Check):
             items.append((f"catalog[{nm!r}]({case['kw']})", case, ob, g, TOL, "catalog-" + nm.replace(" ", "-")))
         lap("catalog-python")
         handle_tables(chk, pool, items, fixed)
+        check_catalog_matrices(chk, pool)
         lap("catalog-lean")
         # --- converter bookkeeping, exactly
         check_labelling(chk, pool, fixed)
@@ -1355,12 +1525,7 @@ def run(chk: core.Check):
         for sess in session_cases(chk):
             handle_session(chk, sess, items, plan_reqs, plan_meta, fixed)
         lap("sessions-python")
-        for (case, label, real), rep in zip(plan_meta, pool.ask_many(plan_reqs)):
-            model = (rep.get("kinds"), rep.get("heralds"))
-            kinds = [k for k in (model[0] or []) if k in TWOQ_COMPONENTS]
-            if (kinds, model[1]) != (real[0], real[1]):
-                chk.fail("broken", "plan-model-mismatch",
-                         f"{label}: components/heralds {real}, model {(kinds, model[1])}", case)
+        settle_plans(chk, pool, plan_reqs, plan_meta, fixed)
         handle_tables(chk, pool, items, fixed)
         lap("convert-lean")
         # --- malformed stream: unsupported gates are rejected with the class the dispatch model predicts
@@ -1391,6 +1556,75 @@ def run(chk: core.Check):
                 chk.fail("broken", "driver-accepts-malformed", f"driver accepted {bad}", {"kind": "driver", "req": bad})
     finally:
         pool.close()
+
+
+
+def settle_plans(chk, pool, plan_reqs, plan_meta, fixed):
+    """answers of the driver to the queued plan / cutcheck / modes questions, compared with the real code"""
+    for (case, label, real), rep in zip(plan_meta, pool.ask_many(plan_reqs)):
+        if real and real[0] == "cut":
+            _, seq, labels, ups, ob, g, tol = real
+            check_cut_real(chk, seq, labels, ups, rep, fixed, case,
+                           table_fails=lambda: (np_fails(ob, g, tol) if photons(ob) <= 8 else None))
+            continue
+        if real and real[0] == "modes":
+            _, n, ops, ob, p, g, tol = real
+            check_placement(chk, label, case, n, ops, ob, p, g, tol, rep)
+            continue
+        model = (rep.get("kinds"), rep.get("heralds"))
+        kinds = [k for k in (model[0] or []) if k in TWOQ_COMPONENTS]
+        if (kinds, model[1]) != (real[0], real[1]):
+            chk.fail("broken", "plan-model-mismatch",
+                     f"{label}: components/heralds {real}, model {(kinds, model[1])}", case)
+
+
+def check_placement(chk, label, case, n, ops, ob, p, g, tol, rep):
+    """target 3: the layout and the wiring of the converted processor against the model's `convLayout` / `gateModes`
+    (proved to be a `Placement`): same mode count, qubit modes and herald modes/values, and the processor's unitary
+    equals the product of its own components' matrices placed on the model's modes (identity elsewhere)"""
+    if "modes" not in rep:
+        chk.fail("broken", "modes-model-rejects", f"{label}: model {rep}", case)
+        return
+    lay_real = (ob["m"], ob["qubits"], [list(h) for h in ob["heralds"]])
+    lay_model = (rep["m"], rep["qubits"], [list(h) for h in rep["heralds"]])
+    two = [o for o in ops if len(o["q"]) == 2 and o["g"] != "swap"]
+    # independent python expectation of the modes
+    want, j = [], 0
+    for o in ops:
+        if len(o["q"]) == 1:
+            want.append([2 * o["q"][0], 2 * o["q"][0] + 1])
+        elif o["g"] == "swap":
+            a, b = o["q"]
+            want.append([2 * a, 2 * a + 1, 2 * b, 2 * b + 1])
+        else:
+            want.append(py_gate_modes(n, j, *o["q"]))
+            j += 1
+    if rep["modes"] != want or not rep.get("layoutOk"):
+        chk.fail("broken", "modes-model-mismatch", f"{label}: model modes {rep['modes']}, expected {want}", case)
+        return
+    bad = None
+    if lay_real != lay_model:
+        bad = f"layout (modes, qubit modes, heralds) {lay_real}, model {lay_model}"
+    else:
+        u = placement_unitary(p, n, ops, rep["modes"])
+        if u is None:
+            chk.count("placement", "components-not-aligned")
+            return
+        dev = float(np.max(abs(u - ob["u"])))
+        chk.count("placement", "checked")
+        chk.branch("place:checked")
+        if two:
+            chk.branch("place:two-qubit")
+        if any(abs(o["q"][0] - o["q"][1]) > 1 for o in two):
+            chk.branch("place:non-adjacent")
+        if any(o["q"][0] > o["q"][1] for o in two):
+            chk.branch("place:control-below-data")
+        if dev > 1e-9:
+            bad = f"the processor's unitary differs by {dev:.3g} from its own components placed on the model's modes {rep['modes']}"
+    if bad:
+        fails = np_fails(ob, g, tol) if photons(ob) <= 7 else None
+        chk.fail("violation" if fails else "broken", "conv-wiring", f"{label}: {bad}" +
+                 (f"; logical table wrong: {fails}" if fails else ""), case)
 
 
 def pp_swapped_away(ops, kinds):
@@ -1495,6 +1729,16 @@ def handle_conv_case(chk, case, items, plan_reqs, plan_meta, fixed, generated=Tr
                  replay)
     plan_reqs.append({"op": "plan", "fixed": fixed, "ups": ups, "gates": gate_seq_for_model(fw, ops)})
     plan_meta.append((replay, label, (kinds, her)))
+    # the cut condition on the labels the real labelling gives for this gate sequence, and the wiring
+    seq = gate_seq_for_model(fw, ops)
+    real_labels = labelling_real(seq)
+    if isinstance(real_labels, list):
+        plan_reqs.append({"op": "cutcheck", "fixed": fixed, "ups": ups, "gates": seq, "labels": real_labels})
+        plan_meta.append((replay, label, ("cut", seq, real_labels, ups, ob, r["g"],
+                                         GENERIC_TOL if has_generic(fw, ops) else TOL)))
+    plan_reqs.append({"op": "modes", "n": n, "fixed": fixed, "ups": ups, "gates": seq})
+    plan_meta.append((replay, label, ("modes", n, ops, ob, r["p"], r["g"],
+                                     GENERIC_TOL if has_generic(fw, ops) else TOL)))
     tol = GENERIC_TOL if has_generic(fw, ops) else TOL
     items.append((label, replay, ob, r["g"], tol, sigp or conv_signature(case, ob, kinds)))
     return r
@@ -1759,10 +2003,12 @@ def replay_case(chk, pool, data, fixed):
     elif kind == "conv":
         items, pr, pm = [], [], []
         handle_conv_case(chk, case, items, pr, pm, fixed, generated=False)
+        settle_plans(chk, pool, pr, pm, fixed)
         handle_tables(chk, pool, items, fixed)
     elif kind == "convseq":
         items, pr, pm = [], [], []
         handle_session(chk, case, items, pr, pm, fixed, generated=False)
+        settle_plans(chk, pool, pr, pm, fixed)
         handle_tables(chk, pool, items, fixed)
     elif kind == "psswap":
         nq = max(case["a"], case["b"], *[m // 2 for c in case["conds"] for m in c]) + 1
